@@ -209,6 +209,16 @@ MUTANTS = [
     ("c16_nofa_noise_upfront", "C16", "xitorch/_impls/integrate/mcsamples/mcmc.py",
      "    for i in range(nsamples):\n        xnext = x + step_size * torch.randn_like(x)\n",
      "    _noise = torch.randn((nsamples, *x0.shape), dtype=x0.dtype, device=x0.device)\n    for i in range(nsamples):\n        xnext = x + step_size * _noise[i]\n", 0),
+    # ---------------- more semantics-preserving rewrites (must stay silent)
+    ("c10_nofa_private_rename", "C10", "xitorch/_core/pure_function.py",
+     "ALL:_restore_stack", "_rstack_renamed", 0),
+    ("c20_nofa_pop_rewrite", "C20", "xitorch/_core/packer.py",
+     "        b = tensors.pop(0)\n", "        b = tensors[0]\n        del tensors[0]\n", 0),
+    ("c19_nofa_ctx_plain_note", "C19", "xitorch/linalg/solve.py",
+     "        ctx.A = A\n", "        ctx.A = A\n        ctx.note = 'kept for debugging'\n", 0),
+    ("c17_nofa_never_cache", "C17", "xitorch/grad/jachess.py",
+     "    def __param_tensors_unchanged(self):\n        return [id(param)",
+     "    def __param_tensors_unchanged(self):\n        return False and [id(param)", 0),
     ("c11_nofa_init_subclass", "C11", "xitorch/_core/linop.py",
      "    def __new__(cls, *args, **kwargs):\n        # check the implemented functions in the class\n",
      "    def __init_subclass__(cls, **kwargs):\n        super().__init_subclass__(**kwargs)\n"
@@ -232,7 +242,11 @@ def apply_mutant(root, relpath, old, new):
     if crlf:
         o = o.replace(b"\n", b"\r\n")
         n = n.replace(b"\n", b"\r\n")
-    if b.count(o) != 1:
+    if old.startswith("ALL:"):
+        o = o[4:]
+        if b.count(o) < 1:
+            raise RuntimeError("pattern does not occur in %s" % relpath)
+    elif b.count(o) != 1:
         raise RuntimeError("pattern occurs %d times in %s" % (b.count(o), relpath))
     open(p, "wb").write(b.replace(o, n))
 
